@@ -121,12 +121,12 @@ func (ctx *Context) applyAtRecursively(pos int) int {
 
 		lookupIndex := ctx.stack[k].Actions[0].LookupListIndex
 		seqIdx := ctx.stack[k].Actions[0].SequenceIndex
+		ctx.stack[k].Actions = ctx.stack[k].Actions[1:]
 		if int(seqIdx) >= len(ctx.stack[k].InputPos) {
 			continue
 		}
 		pos := ctx.stack[k].InputPos[seqIdx]
 		end := ctx.stack[k].EndPos
-		ctx.stack[k].Actions = ctx.stack[k].Actions[1:]
 
 		if int(lookupIndex) >= len(ctx.ll) {
 			continue
